@@ -17,7 +17,7 @@ Read line by line from
   `Model/Admission.lean` (`messages_precede_marker`), so no ticket is ever outstanding between steps;
 * `supervision.rs` `link_below`: refused iff the child's status is `>= child_limit` or the
   supervisor's is `>= Draining` or its child set is closed. `Cfg.fixed = true`: `child_limit =
-  Stopping` (`link_starting`, the code after fix 18b7551); `false`: `Draining` (the code before).
+  Stopping` (`link_starting`, the code after fix ee38a9c); `false`: `Draining` (the code before).
 * `set_status` is `fetch_max`.
 
 The guard's cleanup after a failed start / after the loop is one step (status `Stopped`, ports
